@@ -41,20 +41,31 @@ Definition elem_local (e : elem) : bool :=
   | ERefSel sel _ => expr_local sel
   end.
 Definition marg_local (m : marg) : bool := match m with MFun e => expr_local e | _ => true end.
+(* a move that can only go forwards from its reference point: a non-negative constant jump, a positive
+   constant alignment *)
+Definition move_forward (arg : marg) (al : bool) : bool :=
+  match arg with
+  | MConst z => if al then 0 <? z else 0 <=? z
+  | _ => false
+  end.
 
 (* a compiled field that never refers to the start of the data: no 'begins' reference, no per-element
-   alignment (which is absolute), only local expressions *)
-Definition cfield_local (f : cfield) : bool :=
+   alignment (which is absolute), only local expressions.  `fwd` additionally asks that positioning only
+   moves forwards (a relative move to before the packet's own start reads what precedes it: finding D13). *)
+Definition cfield_local_gen (fwd : bool) (f : cfield) : bool :=
   match f with
-  | CMove _ arg rf _ => marg_local arg && match rf with RBegins => false | _ => true end
+  | CMove _ arg rf al => marg_local arg && match rf with RBegins => false | _ => true end && (negb fwd || move_forward arg al)
   | CElem _ e => elem_local e
   | CBits _ _ _ _ _ _ _ _ => true
   | CSeq _ e count until when _ al => elem_local e && oexpr_local count && oexpr_local until && oexpr_local when && (al =? 1)
   | COpt _ e when _ => elem_local e && expr_local when
   | CEm _ => true
   end.
+Definition cfield_local := cfield_local_gen true.
+Definition cfield_local_weak := cfield_local_gen false.
 Definition class_local (k : cclass) : bool := forallb cfield_local (cc_fields k).
 Definition ct_local (ct : ctab) : bool := forallb (fun ck => class_local (snd ck)) ct.
+Definition ct_local_weak (ct : ctab) : bool := forallb (fun ck => forallb cfield_local_weak (cc_fields (snd ck))) ct.
 
 (* ---- basic well-formedness: positive per-element alignments ---- *)
 Definition cfield_wf (f : cfield) : bool :=
@@ -70,3 +81,45 @@ Definition leaf_keeps_delimiter (l : leaf) : bool :=
   match l with LDataRegex _ incl _ => incl | _ => true end.
 Definition leaf_closed (l : leaf) : bool :=          (* neither a regex nor read-to-end *)
   match l with LDataRegex _ _ _ | LDataEos _ => false | _ => true end.
+
+(* ---- "closed": no regex-delimited and no read-to-end leaf anywhere (also not among the options of a
+        selector), and only local expressions: what the suffix-independence theorem needs ---- *)
+Fixpoint expr_closed (e : expr) {struct e} : bool :=
+  match e with
+  | ELit v => value_closed v
+  | EField _ => true
+  | EUn _ a => expr_closed a
+  | EBin _ l r => expr_closed l && expr_closed r
+  | EChoose s opts => expr_closed s && (fix go (l : list expr) : bool := match l with [] => true | a :: r => expr_closed a && go r end) opts
+  | EChooseD s keys opts =>
+      expr_closed s && (fix go (l : list expr) : bool := match l with [] => true | a :: r => expr_closed a && go r end) opts
+  | EIte c a b => expr_closed c && expr_closed a && expr_closed b
+  | EAttr a _ => expr_closed a
+  | EOffset => true
+  | ERawLen => false
+  end
+with value_closed (v : value) {struct v} : bool :=
+  match v with
+  | VLeaf l => leaf_closed_rec l
+  | VList l | VTuple l => (fix go (l : list value) : bool := match l with [] => true | a :: r => value_closed a && go r end) l
+  | _ => true
+  end
+with leaf_closed_rec (l : leaf) {struct l} : bool :=
+  match l with
+  | LDataSized size _ _ => expr_closed size
+  | LDataRegex _ _ _ | LDataEos _ => false
+  | _ => true
+  end.
+Definition oexpr_closed (o : option expr) : bool := match o with Some e => expr_closed e | None => true end.
+Definition elem_closed (e : elem) : bool :=
+  match e with ELeafE l => leaf_closed_rec l | ERefPkt _ _ => true | ERefSel sel _ => expr_closed sel end.
+Definition cfield_closed (f : cfield) : bool :=
+  match f with
+  | CMove _ arg _ _ => match arg with MFun e => expr_closed e | _ => true end
+  | CElem _ e => elem_closed e
+  | CBits _ _ _ _ _ _ _ _ => true
+  | CSeq _ e count until when _ _ => elem_closed e && oexpr_closed count && oexpr_closed until && oexpr_closed when
+  | COpt _ e when _ => elem_closed e && expr_closed when
+  | CEm _ => true
+  end.
+Definition ct_closed (ct : ctab) : bool := forallb (fun ck => forallb cfield_closed (cc_fields (snd ck))) ct.
